@@ -136,6 +136,37 @@ check(
     "DESIGN.md 2.9, 5 (C18)",
 )
 
+check(
+    "C10",
+    "pest's meta-grammar as a PestAst constant interpreted by PestSem in TLC (MetaTrace.tla / MetaShort.tla) = recogniser and source of the denoted structure; grammar texts loaded by the front end validated against it",
+    "Trace validation against the specification: every grammar text (hand-written probes, the bundled .pest files, sentences rendered from TLC-enumerated ASTs with seeded trivia/parenthesis/escape variation, token and "
+    "character mutations, prefixes, and every string over the grammar alphabet up to length 3/4 enumerated by TLC) gets its verdict from TLC running the reference semantics on the repository's copy of pest's meta-grammar; "
+    "the front end must accept exactly the valid ones and build the structure that the recogniser's parse tree denotes (names, modifiers, docs, operator structure, bounds, slices, decoded literals, tags per rule). "
+    "A vacuity guard fails the run if a meta-grammar production is never exercised by a valid text.",
+    "Trusted: TLC, PestSem (itself validated by C03/C04 and SpecVsSuite), the fold from parse tree to structure (Python, guarded by the bundled grammars round-tripping), spec/MetaGrammar.json (reviewed against the file; "
+    "re-checked against the front end's reading each run). Out of domain: rules shadowing built-ins, duplicate names, escapes above U+10FFFF/surrogates, tags on literals.",
+    "DESIGN.md 2.6, 5 (C10)",
+)
+check(
+    "C11",
+    "Exhaustive enumeration of all short strings over the grammar alphabet (TLC MetaShort.tla, plus one length further by the harness) and the C10 text streams, each loaded with and without the optimizer; outcome classification and position bounds",
+    "Exhaustive within the bound: every string over the 25-symbol grammar alphabet up to length 3 (quick) / 4 (thorough) is enumerated by TLC with the recogniser's verdict, and of length 4 / 5 by the harness; together with "
+    "truncations, mutations and prefixes of valid grammars each text is loaded under a watchdog with optimizer=None and the default optimizer; the outcome must be a Parser or a PestGrammarError whose str() renders and whose "
+    "line:column lies within the text.",
+    "Trusted: TLC, CPython. Both column conventions accepted; an error without a position is allowed ('normally PestGrammarSyntaxError').",
+    "DESIGN.md 5 (C11)",
+)
+check(
+    "C12",
+    "CharSets.tla (interval-list denotations; optimizer class merge transcribed and TLC-checked) and Escapes.tla; TLC-emitted denotations compared with a sweep of all 1,114,112 code points through the public API in four modes",
+    "TLC checks the character-class merge denotes exactly the union of its parts on every small family of ranges/singles and emits the denotation of every probe terminal (ASCII_* classes, ANY, boundary ranges, single "
+    "characters incl. regex metacharacters, insensitive ASCII letters, mixed choices the optimizer merges, reversed ranges); the harness sweeps code points through probe grammars in four modes and compares hit sets with the "
+    "interval lists (thorough: all code points for every terminal and mode; quick: full sweeps for built-ins and a seeded part of the family in two modes, a reduced set elsewhere); Unicode property rules are compared "
+    "between the four modes; every TLC-emitted (escape, code point) case is observed through loaded string and range literals.",
+    "Trusted: TLC, CPython, the regex library's Unicode data (property rules have no TLA+ denotation: four-mode agreement only). Insensitive literals swept over ASCII input only, as the statement says.",
+    "DESIGN.md 2.7, 5 (C12)",
+)
+
 NOT_YET = {
 }
 
